@@ -989,9 +989,9 @@ def generate(rng, tier):
     cols = [e for e in LEAVES + d1 if valuable(e)]
     d2v = [e for e in d2 if valuable(e)]
     cols_used = cols if not quick else LEAVES + rng.sample([e for e in cols if e not in LEAVES], 60)
-    cols_used = cols_used + (rng.sample(d2v, 40) if quick else rng.sample(d2v, 1500))
+    cols_used = cols_used + (rng.sample(d2v, 40) if quick else rng.sample(d2v, 1000))
     trees = [row_tree(rng, e) for e in cols_used]
-    trees += [rand_row_tree(rng, rng.choice([2, 3, 3, 4]), with_null=rng.random() < 0.1) for _ in range(60 if quick else 1500)]
+    trees += [rand_row_tree(rng, rng.choice([2, 3, 3, 4]), with_null=rng.random() < 0.1) for _ in range(60 if quick else 1000)]
     for t in trees:
         cases.extend(rows_cases(rng, t, quick))
     vt = [e for e in cols_used] + [rand_row_tree(rng, 3, with_null=rng.random() < 0.2) for _ in range(40 if quick else 800)]
